@@ -1,6 +1,6 @@
 // replay / bounded stand-in driver (appended to acts/src/scheduler/tests/message.rs of a scratch copy): property C08.
 // For every task the client sees at most one `created` and at most one terminal message, the terminal one last, and a task whose
-// error is taken by its own catch reports only its eventual ending.  8 workflows (+ every ended workflow / step / interrupt act has exactly one terminal message with its final state): plain act, two acts in sequence, step catch with
+// error is taken by its own catch reports only its eventual ending.  9 workflows (the last one scripted: a step closed by a back while a child is open, the child ends later) (+ every ended workflow / step / interrupt act has exactly one terminal message with its final state): plain act, two acts in sequence, step catch with
 // steps, step catch without steps, act catch without steps, step with a false condition.
 #[tokio::test]
 async fn verif_replay_hist_message_stream() {
@@ -20,6 +20,13 @@ async fn verif_replay_hist_message_stream() {
             .with_catch(|c| c.with_step(|s| s.with_id("cs1").with_act(Act::irq(|a| a.with_key("err2")))))))),
         ("step with a false condition is skipped", Workflow::new().with_id("v_m6").with_step(|s| s.with_id("step1").with_if("false").with_act(Act::irq(|a| a.with_key("ok1"))))
             .with_step(|s| s.with_id("step2").with_act(Act::irq(|a| a.with_key("ok2"))))),
+        // a task ends while one of its children is still open, and that child ends later: back from one of two parallel branches closes the step that
+        // holds them; the act of the other branch is completed afterwards (scripted below: the `hold_` acts are answered by the script)
+        ("back from one of two parallel branches, then the act of the other branch is completed", Workflow::new().with_id("v_m9")
+            .with_step(|s| s.with_id("s0").with_act(Act::irq(|a| a.with_key("ok0"))))
+            .with_step(|s| s.with_id("s1")
+                .with_branch(|b| b.with_id("b1").with_if("true").with_step(|s| s.with_id("s2").with_act(Act::irq(|a| a.with_key("hold_a1")))))
+                .with_branch(|b| b.with_id("b2").with_if("true").with_step(|s| s.with_id("s3").with_act(Act::irq(|a| a.with_key("hold_a2"))))))),
     ];
     for (name, workflow) in shapes.iter() {
         let config = ConfigData { keep_processes: Some(true), ..ConfigData::default() };
@@ -28,8 +35,11 @@ async fn verif_replay_hist_message_stream() {
         let log: Arc<Mutex<Vec<(String, String, String)>>> = Arc::new(Mutex::new(Vec::new()));   // (tid, nid, state)
         let l = log.clone();
         let ex = engine.executor().clone();
+        let held: Arc<Mutex<Vec<(String, String)>>> = Arc::new(Mutex::new(Vec::new()));   // (key, tid) of the `created` messages the script answers itself
+        let h2 = held.clone();
         engine.channel().on_message(move |e| {
             l.lock().unwrap().push((e.tid.clone(), e.nid.clone(), e.state.to_string()));
+            if e.is_irq() && e.is_state(MessageState::Created) && e.key.starts_with("hold_") { h2.lock().unwrap().push((e.key.clone(), e.tid.clone())); return; }
             if e.is_irq() && e.is_state(MessageState::Created) {
                 if e.key.starts_with("err") {
                     let mut vars = Vars::new(); vars.set("ecode", "e1");
@@ -40,6 +50,19 @@ async fn verif_replay_hist_message_stream() {
             }
         });
         engine.runtime().launch(&proc);
+        if name.starts_with("back from one of two parallel branches") {
+            // the n-th `created` message with that key (its task id), waited for
+            let nth = |k: &'static str, n: usize| { let held = held.clone(); async move { for _ in 0..200 { if let Some(t) = held.lock().unwrap().iter().filter(|(key, _)| key == k).map(|(_, tid)| tid.clone()).nth(n) { return Some(t); } tokio::time::sleep(std::time::Duration::from_millis(25)).await; } None } };
+            if let (Some(a1), Some(a2)) = (nth("hold_a1", 0).await, nth("hold_a2", 0).await) {
+                tokio::time::sleep(std::time::Duration::from_millis(100)).await;
+                let _ = engine.executor().act().back(&proc.id(), &a1, &Vars::new().with("to", "s0"));
+                tokio::time::sleep(std::time::Duration::from_millis(200)).await;
+                let _ = engine.executor().act().complete(&proc.id(), &a2, &Vars::new());
+                // s0 runs again (ok0 is answered by the handler), the branches open again: both acts are completed now
+                if let Some(t) = nth("hold_a1", 1).await { let _ = engine.executor().act().complete(&proc.id(), &t, &Vars::new()); }
+                if let Some(t) = nth("hold_a2", 1).await { let _ = engine.executor().act().complete(&proc.id(), &t, &Vars::new()); }
+            } else { bad.push(format!("REPLAY-FAIL [{name}] the two branch acts did not open")); }
+        }
         let mut left = 5000u64;
         while left > 0 && !proc.state().is_completed() { tokio::time::sleep(std::time::Duration::from_millis(25)).await; left = left.saturating_sub(25); }
         tokio::time::sleep(std::time::Duration::from_millis(300)).await;
